@@ -82,7 +82,31 @@ pub fn op_rseq(a: &[&str]) -> String {
             if op_verify(&[&name, &hex(&m)]).starts_with('A') { return format!("variant-mismatch:seq-malformed-accepted:{}:{}:{}", i, w, k) }
             if !op_verify(&[&name, &h]).starts_with('A') { return format!("variant-mismatch:seq-verify-after-rejection:{}:{}:{}", i, w, k) }
         }
-        built.push((name, h));
+        built.push((name.clone(), h.clone()));
+        // the same commitments under another split of the bit lengths (amounts small enough for both), straight
+        // after: the statement is (commitments, bit lengths), not the commitments alone
+        if *w == "64" || *w == "128" {
+            let (bls2, small): (Vec<usize>, Vec<u64>) = if *w == "64" { (vec![16, 48], vec![r.u64() & 0xffff, r.u64() & 0xffff]) } else { (vec![32, 32, 64], vec![]) };
+            if *w == "64" {
+                let opens2: Vec<curve25519_dalek::scalar::Scalar> = (0..2).map(|_| rand_scalar(&mut r)).collect();
+                let comms2: Vec<String> = small.iter().zip(opens2.iter()).map(|(x, o)| hp(&crate::gen_sigma::commit(&curve25519_dalek::scalar::Scalar::from(*x), o))).collect();
+                let mut pair = vec![];
+                for bl in [vec![32usize, 32], bls2.clone(), vec![32, 32], vec![48, 16]] {
+                    // [48,16] needs the second amount below 2^16 and the first below 2^48: both hold
+                    let args = ["64".to_string(), comms2.join(","), small.iter().map(|x| x.to_string()).collect::<Vec<_>>().join(","),
+                        bl.iter().map(|x| x.to_string()).collect::<Vec<_>>().join(","), opens2.iter().map(hs).collect::<Vec<_>>().join(",")];
+                    let av: Vec<&str> = args.iter().map(|x| x.as_str()).collect();
+                    let Some(Ok(b2)) = construct(&av) else { return format!("variant-mismatch:seq-construct-split:{}:{:?}", i, bl) };
+                    let h2 = hex(&b2);
+                    if !op_verify(&["range64", &h2]).starts_with('A') { return format!("variant-mismatch:seq-verify-split:{}:{:?}", i, bl) }
+                    pair.push(h2);
+                }
+                for h2 in pair.iter().rev() {
+                    if !op_verify(&["range64", h2]).starts_with('A') { return format!("variant-mismatch:seq-reverify-split:{}", i) }
+                }
+                for h2 in pair { built.push(("range64".to_string(), h2)); }
+            }
+        }
     }
     for (i, (name, h)) in built.iter().enumerate().rev() {
         if !op_verify(&[name, h]).starts_with('A') { return format!("variant-mismatch:seq-reverify:{}:{}", i, name) }
